@@ -19,7 +19,7 @@ RUN_WALL_WATCHDOG_S = 300.0
 TIERS = {
     # r_max: cap on clock readings of the un-interrupted run (deterministic step budget)
     # sweep_max: up to this many readings every cut is executed; above, a structured sample
-    "quick":    {"runs": 12000, "chunk": 10, "wall_cap_s": 75, "r_max": 1500, "sweep_max": 300, "size": 0, "b_max": 60000,
+    "quick":    {"runs": 16000, "chunk": 10, "wall_cap_s": 75, "r_max": 1500, "sweep_max": 300, "size": 0, "b_max": 60000,
                  "det_sample_min": 8, "det_sample_frac": 0.005, "max_reports": 3, "shrink_candidates": 250},
     "thorough": {"runs": 120000, "chunk": 8, "wall_cap_s": 1500, "r_max": 5000, "sweep_max": 900, "size": 1, "b_max": 400000,
                  "det_sample_min": 32, "det_sample_frac": 0.003, "max_reports": 4, "shrink_candidates": 600,
